@@ -1403,3 +1403,39 @@ def alias_of (fnode, e, attr_text):
     ds = [v for v, st_, k in reaching_assign(fnode, e.id)]
     return bool(ds) and all(v is not None and norm(v) == attr_text for v in ds)
   return False
+
+
+def generator_misuse (repo, modules):
+  """Functions of `modules` whose every return value is a one-shot iterator (generator expression, or the function is a
+  generator) and callers in `modules` that treat the result as a container: truth test, len(), indexing, a second iteration.
+  A generator object is always true and is exhausted by its first loop.  [(callee, caller_func, module, node, how)]"""
+  lazy = {}
+  allf = []
+  for m in modules:
+    allf += [(m, f) for f in m.funcs.values()] + [(m, f) for c in m.classes.values() for f in c.methods.values()]
+  names = {}
+  for m, f in allf: names.setdefault(f.name, []).append(f)
+  for m, f in allf:
+    rs = [r for r in returns_of(f.node) if r.value is not None]
+    if rs and all(isinstance(r.value, ast.GeneratorExp) for r in rs) and not is_generator(f.node): lazy[f.name] = f
+  out = []
+  for nm, callee in lazy.items():
+    if len(names[nm]) != 1: continue                  # several functions of that name: which one a call reaches is not decided here
+    for m, f in allf:
+      for t, v, st, k in stores_in(f.node, nested=False):
+        if not (isinstance(t, ast.Name) and isinstance(v, ast.Call) and call_name(v) == nm and k == 'assign'): continue
+        if len([1 for t2, v2, s2, k2 in stores_in(f.node, nested=False) if isinstance(t2, ast.Name) and t2.id == t.id]) != 1: continue
+        var = t.id; loops = 0
+        for x in walk_no_nested_(f.node):
+          if isinstance(x, ast.UnaryOp) and isinstance(x.op, ast.Not) and isinstance(x.operand, ast.Name) and x.operand.id == var: out.append((callee, f, m, x, "`not %s`" % var))
+          elif isinstance(x, (ast.If, ast.While, ast.IfExp)) and isinstance(x.test, ast.Name) and x.test.id == var: out.append((callee, f, m, x.test, "`if %s`" % var))
+          elif isinstance(x, ast.Call) and call_name(x) in ('len', 'bool') and len(x.args) == 1 and isinstance(x.args[0], ast.Name) and x.args[0].id == var: out.append((callee, f, m, x, "`%s(%s)`" % (call_name(x), var)))
+          elif isinstance(x, ast.Subscript) and isinstance(x.value, ast.Name) and x.value.id == var: out.append((callee, f, m, x, "`%s[...]`" % var))
+          elif isinstance(x, (ast.For, ast.comprehension)) and isinstance(x.iter, ast.Name) and x.iter.id == var:
+            loops += 1
+            if loops == 2: out.append((callee, f, m, x.iter, "a second iteration over `%s`" % var))
+  return out, len(lazy)
+
+def walk_no_nested_ (node):
+  from .model import walk_no_nested
+  return walk_no_nested(node)
